@@ -253,7 +253,17 @@ impl<E: Engine> DynEngine for E {
             if i < 3 {
                 stats.sample(json!({"run": i, "scenario": serde_json::to_value(&sc).unwrap()}));
             }
-            let res = self.execute(&sc, &mut stats);
+            let res = match crate::locks::caught(|| self.execute(&sc, &mut stats)) {
+                crate::locks::Caught::Ok(r) => r,
+                crate::locks::Caught::Panic(m) if m.contains("@ src/") => {
+                    // library code panicked outside any call the engine was watching (e.g. in a Drop)
+                    Some((Violation::new("panic", format!("library code panicked outside a monitored call: {m}")), sc.clone()))
+                }
+                crate::locks::Caught::Panic(m) | crate::locks::Caught::Abort(m) => {
+                    eprintln!("HARNESS-ERROR: run {i} of {tag}: the harness itself panicked: {m}");
+                    std::process::exit(3);
+                }
+            };
             done += 1;
             if let Some((v, pinned)) = res {
                 violation = Some((i, v, serde_json::to_value(&pinned).unwrap()));
